@@ -1,4 +1,5 @@
 """C09 -- HTML matcher returns the innermost enclosing tag pair with exact ranges."""
+import copy
 import glob
 import json
 import os
@@ -224,7 +225,7 @@ def call_sequences(ctx, docs):
             queries += [(d, p) for p in ps[:40]]
         rng.shuffle(queries)
         for j, (d, pos) in enumerate(queries):
-            opts = hu.OPT_SETS['xml' if d.xml else 'html']
+            opts = copy.deepcopy(hu.OPT_SETS['xml' if d.xml else 'html'])
             if j % 3 == 0:
                 poison = rng.choice(POISON_DOCS)
                 pp = rng.randint(0, len(poison))
@@ -256,7 +257,7 @@ def replay(ctx, obj):
     doc = html_gen.doc_from_json(rp['doc'])
     if rp.get('component') == 'c09-sequence':
         for t, q, x in rp.get('history', []):
-            opts = hu.OPT_SETS['xml' if x else 'html']
+            opts = copy.deepcopy(hu.OPT_SETS['xml' if x else 'html'])
             m, o, i = hu.impl_match(t, q, opts), hu.impl_outward(t, q, opts), hu.impl_inward(t, q, opts)
         bad = hu.c09_problem(doc, rp['pos'], m, o, i)
         print('after the recorded call history, position %d of %r: %s' % (rp['pos'], doc.text[:200], bad or 'property holds'))
